@@ -118,6 +118,12 @@ def gen_plan(rng):
                          'secs': 2 * max(rk['c_secs'], rk['s_secs'])}
     plan['profile']['max_iterations'] = 8000
     plan['algs'] = rng.choice(CIPHER_SETS)
+
+    if secs and 'diffie-hellman' in (plan['algs'].get('kex_algs') or [''])[0]:
+        # (time-based re-exchange with the slow finite-field exchange: a
+        # run with many epochs costs a minute of CPU; the byte thresholds
+        # cover that exchange)
+        plan['algs'] = CIPHER_SETS[1]
     small = min(rk['c_bytes'], rk['s_bytes'])
     return chanload.clamp_plan(plan, 8 if small <= 64 else 60)
 
